@@ -10,14 +10,15 @@ CFG = dict(
           "the handler of that stream returned nil: the envelope it took is the trailer SendTrailer built from that return). and "
           "C02_handler_order_partial (the RecvMsg results of a stream handler, in order, classify a subsequence of the envelopes its "
           "caller wrote on that stream in the order of writing: no reordering, duplication, fabrication, alteration towards the "
-          "handler). NOT proved: no loss towards the handler in fault-free runs (prefix instead of subsequence), order towards the "
-          "caller, EOF only after everything was received (both sides), caller EOF complete (never Canceled on success): they need per-id FIFO facts of the two component models that do not exist yet. The tie: the boolean predicates spec_c02 of coq/Check/C02c.v (position-wise delivery in both directions, "
+          "handler) and C02_caller_order_partial (the messages RecvMsg returned on a call, in order, are a subsequence of the bodies of "
+          "the envelopes the server wrote with the call's id, in the order of writing). NOT proved: no loss in fault-free runs (prefix "
+          "instead of subsequence), EOF only after everything was received (both sides), caller EOF complete (never Canceled on success): they need per-id FIFO facts of the two component models that do not exist yet. The tie: the boolean predicates spec_c02 of coq/Check/C02c.v (position-wise delivery in both directions, "
           "handler EOF only after half-close with nothing outstanding, caller EOF only after the handler returned nil with nothing "
           "outstanding, no non-EOF failure of a successful stream - the Canceled-instead-of-EOF outcome -, nothing hangs) are evaluated "
           "on every history recorded from the REAL client connection + server.",
     props="Props/C02.v",
     theorems=["C02_wire_c2s_prefix_partial", "C02_wire_s2c_prefix_partial", "C02_wire_complete_partial",
-              "C02_handler_eof_sound_partial", "C02_handler_recv_was_sent_partial", "C02_caller_eof_sound_partial", "C02_handler_order_partial"],
+              "C02_handler_eof_sound_partial", "C02_handler_recv_was_sent_partial", "C02_caller_eof_sound_partial", "C02_handler_order_partial", "C02_caller_order_partial"],
     imports=["Check.SysC", "Check.C02c"],
     case_type="c02case",
     find_bad_from="find_bad_from",
